@@ -19,6 +19,12 @@ def run(tier):
             cfgs.append((3, n, n % 5, n % 3, 1))
     for th, n, ct, ht, buf in cfgs:
         e2e_ob(r, 'roundtrip-T%d-len%d-c%d-h%d-chunk%d' % (th, n, ct, ht, 16 * buf), th, n, ct, ht, buf, extra=['ROUNDTRIP'], timeout=900 if tier == 'quick' else 3600)
+    # the text offset 48+20T for every worker count 1..16 (prepare_IV + prepare_AES on the real runcrypt; no hashing involved)
+    ug, ureal = U_kern_gate(), U_kern('kern')
+    for th in range(1, 17):
+        fl = 48 + 20 * th + 16
+        r.add(Ob('text-offset-T%d' % th, 'h_verify.c', [ug], defines=['H_SEEK', 'FLEN=%d' % fl, 'THREADS=%d' % th, 'SREF_MSGMAX=16'], unwind=max(400, fl + 40), timeout=300, envs=KERN_ENVS,
+                 replay_units=[ureal], replay_envs=NATIVE_FILE_ENVS, cbmc_extra=FS))
     r.bounds = ['(T, plaintext bytes, cipher mode byte, hash mode, chunk bytes) in %s; all plaintext contents, keys and seeds of %d bytes symbolic; canonical schedule (C03 decides schedule independence)' % (cfgs if tier == 'quick' else '%d configurations' % len(cfgs), 5)]
     r.outside = ['production chunk size 16 MiB (the code uses BUF_SZ/sum only as fread size, comparison with the read count and array bound)', 'T > 3', 'the cipher and hash themselves (marker / uninterpreted here; C09, C10, C07)', 'I/O errors']
     r.assumptions = ['block cipher replaced by an invertible marker keyed by (stream, sequence number): decrypt(encrypt(P)) == P then shows padding, chunk distribution, header skip and gating are mutually inverse; stream inverse is C10',
